@@ -352,7 +352,7 @@ def numberish_host(rng):
 
 def gen_scenario(rng):
     """Shapes that need several ingredients at once (multi-step, two cooperating sites)."""
-    k = rng.randrange(10)
+    k = rng.randrange(12)
     sc = rng.choice(NONSPECIAL[:4] + [b"non-spec"])
     q = rng.choice([b"", b"?q=1", b"?", b"?a b"])
     f = rng.choice([b"", b"#frag", b"#", b"#f g"])
@@ -420,6 +420,16 @@ def gen_scenario(rng):
         tail = rng.choice(["", "/", "/path?q=1#frag", ":80/p", "\t/"])
         scheme = rng.choice(["http", "https", "ws", "ftp", "sc"])
         return (scheme + "://" + host + tail).encode(), None, []
+    if k >= 10:
+        # file: paths in which a Windows drive letter becomes the first segment only after dot segments were
+        # resolved (or after ".." emptied the path), with '|' spellings and ".." following the drive letter
+        dl = rng.choice([b"C:", b"C|", b"d:", b"Z|", b"c:"])
+        pre = rng.choice([b"./", b"a/../", b"../", b"a/b/../../", b"./../", b"x/./../"])
+        post = rng.choice([b"", b"/", b"/..", b"/../x", b"/../../y", b"/x/..", b"/./x", b"/..//z"])
+        if rng.random() < 0.6:
+            return b"file:///" + pre + dl + post + q + f, None, []
+        base = rng.choice([b"file:///a", b"file:///a/b", b"file:///", b"file://host/a/b"])
+        return pre + dl + post + q + f, base, []
     # k == 9: non-special URL, bracketed IPv6, distance from '[' / ']' to the end around 16 bytes
     v6 = rng.choice([b"[::1]", b"[2001:db8::1]", b"[2001:db8:85a3::8a2e:370:7334]", b"[fe80::1ff:fe23:4567:890a]", b"[1:2:3:4:5:6:7:8]"])
     tail = rng.choice([b"", b":8080", b":8080/path", b"/repo.git", b":6379", b":8080/path2", b"/" + b"x" * rng.randrange(0, 20)])
